@@ -14,7 +14,7 @@ from .csrc import ExtractError
 
 # rules whose case body is translated into the IR and proved equal to the Op.step case in Peg/TieSkel.lean
 IR_RULES = ["RULE_IF", "RULE_IFNOT", "RULE_NOT", "RULE_DROP", "RULE_ONLY_TAGS", "RULE_SUB", "RULE_ACCUMULATE", "RULE_CAPTURE",
-            "RULE_POSITION", "RULE_CONSTANT", "RULE_GROUP", "RULE_NTH", "RULE_ERROR", "RULE_BETWEEN", "RULE_TO", "RULE_THRU", "RULE_TIL", "RULE_CHOICE", "RULE_SEQUENCE", "RULE_LENPREFIX"]
+            "RULE_POSITION", "RULE_CONSTANT", "RULE_GROUP", "RULE_NTH", "RULE_ERROR", "RULE_BETWEEN", "RULE_TO", "RULE_THRU", "RULE_TIL", "RULE_CHOICE", "RULE_SEQUENCE", "RULE_LENPREFIX", "RULE_SPLIT"]
 
 
 class Unsupported(Exception):
@@ -404,6 +404,9 @@ class Extract:
         m = re.fullmatch(r"(\w+) < (\w+)", s)
         if m and m.group(1) in self.num and m.group(2) in self.word:
             return ".numLtWord %d %s" % (self.num[m.group(1)], self.we([m.group(2)]))
+        m = re.fullmatch(r"(\w+) <= (\w+)", s)
+        if m and m.group(1) in self.ptr and m.group(2) in self.ptr:
+            return ".ptrLe %d %d" % (self.ptr[m.group(1)], self.ptr[m.group(2)])
         m = re.fullmatch(r"(\w+) == (\w+)", s)
         if m and m.group(1) in self.ptr and m.group(2) in self.ptr:
             return ".ptrEq %d %d" % (self.ptr[m.group(1)], self.ptr[m.group(2)])
@@ -665,6 +668,9 @@ def conv(stmts, ex, end=".fall", loops=None):
             return ".retNull"
         if len(toks) == 1 and toks[0] in ex.ptr:
             return "(.ret %d)" % ex.ptr[toks[0]]
+        if toks == ["s", "->", "text_end"]:          # return s->text_end
+            t = ex.new_ptr("%ret" + str(len(ex.ptr)))
+            return "(.seq (.endSave %d) (.ret %d))" % (t, t)
         if "?" in toks and ":" in toks:          # return c ? a : b
             qi, ci = toks.index("?"), len(toks) - 1 - toks[::-1].index(":")
             c = ex.cond(toks[:qi])
